@@ -196,7 +196,7 @@ def gen_case(rng, tier):
             if rng.random() < 0.06:
                 # an earlier search with the same object that was interrupted part-way
                 ops.insert(len(ops) - 1, {"op": "interrupted_search", "patt": pi, "target": target(),
-                                          "at": int(10 ** rng.uniform(0, 2.7))})
+                                          "at": int(10 ** rng.uniform(0, 2.7)) if rng.random() < 0.94 else {"guided": round(rng.random(), 3)}})
         else:
             rr = rng.random()
             if rr < 0.35:
@@ -428,8 +428,18 @@ def execute(case):
                 import os  # pylint: disable=import-outside-toplevel
 
                 target = pm.Perm(op["target"])
-                status, _r, _n = histsim.run_interruptible(lambda p=pool[pi], t=target: list(p.occurrences_in(t)), op["at"],
-                                                           [os.path.join(core.repo_dir(), "permuta") + os.sep])
+                pref = [os.path.join(core.repo_dir(), "permuta") + os.sep]
+                at = op["at"]
+                if isinstance(at, dict):
+                    # per-object state is invisible to the process-wide fingerprint: hang the pool
+                    # where the dry run can see it
+                    import permuta  # pylint: disable=import-outside-toplevel
+
+                    permuta._verif_pool = [getattr(o, "__dict__", None) for o in pool]  # pylint: disable=protected-access
+                    at = histsim.guided_interrupt_at(lambda p=pool[pi], t=target: list(p.occurrences_in(t)), pref, at["guided"])
+                    del permuta._verif_pool
+                    out.probe("guided_interrupt" if at else "guided_interrupt_no_state_change")
+                status, _r, _n = histsim.run_interruptible(lambda p=pool[pi], t=target: list(p.occurrences_in(t)), at or 10 ** 9, pref)
                 if status == "interrupted":
                     out.fault("interrupted_call")
                     out.probe("interrupted_call")
